@@ -42,6 +42,10 @@ pub fn alphabet() -> Vec<Op> {
         }));
     }
     reqs.push(WireReq::new(SET_FEATURES, p_u64(0), vec![], "0"));
+    // largest messages the protocol allows: a config window whose body is exactly 4096 bytes
+    reqs.push(WireReq::new(GET_CONFIG, p_config(0, 0xff4, 0, &vec![0u8; 0xff4]), vec![], "max-size"));
+    reqs.push(WireReq::new(GET_CONFIG, p_config(0xc, 0xff4, 0, &vec![0u8; 0xff4]), vec![], "max-size-at-0xc"));
+    reqs.push(WireReq::new(SET_CONFIG, p_config(0, 0xff4, 1, &vec![0x5a; 0xff4]), vec![], "max-size"));
     for req in reqs {
         for need_reply in [false, true] {
             for fail in [false, true] {
